@@ -26,7 +26,7 @@ RULE = (
     "string lengths up to 2^62, quoted triples nested 1..300, options rows in odd places, 10^4 empty frames, ids 2^32-1, "
     "invalid UTF-8, over-long varints, short typed literals that declare huge magnitudes (1E+200000000 and the like), plus four fixed large inputs (4*10^5 leading / 10^6 / 3*10^5 trailing empty frames, "
     "5*10^4 rows in one frame); each through parse_jelly_flat, parse_jelly_grouped and parse_jelly_to_graph of both "
-    "integrations, from BytesIO and from a non-seekable short-reading raw source; (d) atheris coverage-guided campaigns on "
+    "integrations, from BytesIO, from a non-seekable short-reading raw source and from a BufferedReader over a non-seekable source whose first reads deliver 1 and 2 bytes; (d) atheris coverage-guided campaigns on "
     "the four flat / grouped entry points with a structure-aware custom mutator, seeded and empty corpus. Oracle, enforced "
     "by a supervising process over forked workers: the call returns or raises an ordinary Exception; the worker never "
     "dies; no input <= 64 KiB takes more than 20 s (a timeout that does not reproduce alone is inconclusive, not a "
@@ -207,7 +207,7 @@ def inputs_strategy():
 
 # ------------------------------------------------------------------ execution
 ENTRIES = ["generic_flat", "generic_grouped", "generic_to_graph", "rdflib_flat", "rdflib_grouped", "rdflib_to_graph",
-           "generic_flat_raw", "rdflib_grouped_raw"]
+           "generic_flat_raw", "rdflib_grouped_raw", "generic_flat_buf12", "rdflib_to_graph_buf21"]
 
 
 def run_entry(entry: str, data: bytes):
@@ -217,9 +217,14 @@ def run_entry(entry: str, data: bytes):
 
     integ, _, what = entry.partition("_")
     raw = what.endswith("_raw")
-    what = what.replace("_raw", "")
+    buf = what[-6:] if what[-6:] in ("_buf12", "_buf21") else ""
+    what = what.replace("_raw", "").replace(buf, "")
     m = gp if integ == "generic" else rp
-    inp = iosim.DribbleRaw(data, [7, 1, 3]) if raw else io.BytesIO(data)
+    if buf:
+        # a buffered reader (it has peek()) over a non-seekable source whose first reads deliver 1 and 2 bytes
+        inp = io.BufferedReader(iosim.DribbleRaw(data, [1, 2, 4096] if buf == "_buf12" else [2, 1, 4096]))
+    else:
+        inp = iosim.DribbleRaw(data, [7, 1, 3]) if raw else io.BytesIO(data)
     try:
         if what == "flat":
             for _ in m.parse_jelly_flat(inp):
@@ -255,8 +260,10 @@ def _child(wfd, inputs):
     rss_jump = None
     last_rss = base
     for i, data in enumerate(inputs):
-        send(["start", i])
         for entry in ENTRIES:
+            # progress marker per call: the supervisor allows each call TIME_LIMIT (inputs up to 64 KiB) before it
+            # declares a hang
+            send(["start", i, TIME_LIMIT + 5 if len(data) <= 65536 else 90.0])
             t0 = time.monotonic()
             r = run_entry(entry, data)
             dt = time.monotonic() - t0
@@ -328,10 +335,10 @@ def supervise(inputs, timeout):
             buf += chunk
             while b"\n" in buf:
                 line, buf = buf.split(b"\n", 1)
-                kind, val = json.loads(line)
+                kind, val, *more = json.loads(line)
                 if kind == "start":
                     last = val
-                    t_end = max(t_end, time.monotonic() + TIME_LIMIT * len(ENTRIES) + 5)
+                    t_end = time.monotonic() + more[0]
                 else:
                     reap()
                     val["bad"] = [tuple(b) for b in val["bad"]]
@@ -347,7 +354,7 @@ def check_input(data: bytes):
     if r["status"] == "died":
         return Violation("C17:interpreter-died", f"worker exit code {r.get('exitcode')} on a {len(data)}-byte input", case)
     if r["status"] == "timeout":
-        return Violation("C17:hang", f"no answer within {TIME_LIMIT * len(ENTRIES):.0f}s on a {len(data)}-byte input", case)
+        return Violation("C17:hang", f"a parse call did not return within {TIME_LIMIT:.0f}s on a {len(data)}-byte input", case)
     for _, entry, what in r["bad"]:
         tag = "slow" if what.startswith("took") else "bad-exception"
         return Violation(f"C17:{tag}:{entry}", f"{entry}: {what} on a {len(data)}-byte input", case)
@@ -506,7 +513,7 @@ def run_fixed(spec, acc):
     import hashlib
 
     known = set(spec["known"])
-    for d in fixed_hostile():
+    for d in sorted(fixed_hostile(), key=len):
         acc.evaluations += 1
         acc.counters["fixed_large_hostile_inputs"] += 1
         acc.nontrivial.add(hashlib.sha1(d).hexdigest()[:16])
